@@ -285,6 +285,7 @@ Proof.
   - inversion H; subst. split; [reflexivity|constructor].
   - destruct (negb _); [discriminate|].
     destruct (lookup c sizes) as [len|] eqn:El; [|discriminate].
+    destruct (lookup c ids) as [?|] eqn:Eseen; [discriminate|].
     destruct (get_id ids c) as [ids1 id].
     destruct (check_entries len es) as [[]| | |] eqn:Ec; cbn [rbind] in H; try discriminate.
     destruct (process_bruns o sizes (Some c) ids1 rest) as [[ids2 outs2]| | |] eqn:Er; cbn [rbind] in H; try discriminate.
